@@ -64,7 +64,7 @@ def qlit(n, d):
 
 def modelled(c):
     """can the Coq model evaluate this case?  (integer / NaN weights, seeded Louvain, no gnp)"""
-    if c.get("spec") is None:
+    if c.get("spec") is None or c.get("nomodel"):
         return False
     if any(isinstance(e[2], float) for e in c["edges"]):
         return False
@@ -350,10 +350,10 @@ class CommProp(props.BaseProp):
     def case_json(self, c):
         return {"id": c["id"], "spec": list(c["spec"]) if c.get("spec") is not None else None,
                 "nodes": [list(n) for n in c["nodes"]], "edges": [list(e) for e in c["edges"]],
-                "calls": [list(x) for x in c["calls"]], "wscale": c.get("wscale", 0)}
+                "calls": [list(x) for x in c["calls"]], "wscale": c.get("wscale", 0), "nomodel": bool(c.get("nomodel"))}
 
     def case_from_json(self, j):
-        return {"id": j.get("id", "replay"), "wscale": j.get("wscale", 0),
+        return {"id": j.get("id", "replay"), "wscale": j.get("wscale", 0), "nomodel": bool(j.get("nomodel")),
                 "spec": tuple(j["spec"]) if j.get("spec") is not None else None,
                 "nodes": [tuple(n) for n in j["nodes"]], "edges": [tuple(e) for e in j["edges"]],
                 "calls": [tuple(x[:4]) + ([list(s) for s in x[4]],) if x[0] == "mod" else tuple(x)
@@ -422,7 +422,10 @@ class CommProp(props.BaseProp):
         oracle_fail, model_fail = [], []
         # fresh processes: the same cases again, outputs must be identical
         for k in range(1, self.nproc):
-            impl_k, errs = self.run_impl(cases, wd, "%s_p%d" % (tag, k))
+            # the fresh processes run the cases in ANOTHER ORDER (reversed; rotated by half): an answer that depends
+            # on what the process did before (a cache, a static, thread-local state) is not a function of the arguments
+            order = list(reversed(cases)) if k == 1 else cases[len(cases) // 2:] + cases[:len(cases) // 2]
+            impl_k, errs = self.run_impl(order, wd, "%s_p%d" % (tag, k))
             res["corr_errors"] += errs
             for c in cases:
                 a, b = impl.get(c["id"]), impl_k.get(c["id"])
@@ -613,6 +616,24 @@ class C12Prop(CommProp):
                 # dyadic weight scale applied inside the harness (see centgen.py); modularity is invariant
                 c["wscale"] = r2.pick([-60, -3, -1, 40])
             cases.append(c)
+            if i % 1250 == 600:
+                # more than 1024 nodes (oracle only): the degree sums and the per-community terms run over more values
+                # than any block size a summation helper could use
+                nb = 1100 + r2.below(500)
+                db = r2.below(2)
+                eb = [(j, (j + 1) % nb, 1 + r2.below(3), None) for j in range(nb)] + \
+                     [(r2.below(nb), r2.below(nb), 1 + r2.below(3), None) for _ in range(nb // 4)]
+                seen_b, ec = set(), []
+                for e in eb:
+                    kk = (e[0], e[1]) if db else (min(e[0], e[1]), max(e[0], e[1]))
+                    if e[0] != e[1] and kk not in seen_b:
+                        seen_b.add(kk)
+                        ec.append(e)
+                blocks = [list(range(a, min(nb, a + 97))) for a in range(0, nb, 97)]
+                cases.append({"id": "mb%d" % i, "spec": (db, 0, 1, 0, 0, 0), "nodes": [(x, None) for x in range(nb)],
+                              "edges": ec, "nomodel": True,
+                              "calls": [("mod", 1, 1, 1, blocks), ("mod", 0, 3, 2, blocks),
+                                        ("mod", 1, 1, 1, [list(range(nb))])]})
         return cases
 
     def nontrivial(self, c, o):
@@ -624,7 +645,7 @@ class C12Prop(CommProp):
         return big and not all(ts)
 
     def stats_key(self, c, o):
-        ks = ["spec_d%d_m%d_s%d" % tuple(c["spec"][:3]), "n_%d" % len(c["nodes"])]
+        ks = ["spec_d%d_m%d_s%d" % tuple(c["spec"][:3]), "n_%s" % (len(c["nodes"]) if len(c["nodes"]) < 100 else ">1024")]
         ok, nodes, edges = impl_graph(o)
         for cl in c["calls"]:
             ks.append("family_" + ("partition" if is_partition_def(set(nodes), cl[4]) else "not_partition"))
@@ -789,7 +810,8 @@ ALL_TAGS = ["square_clustering", "bfs_equal_size_partitions(1)", "bfs_equal_size
             "weakly_connected_components", "strongly_connected_components", "eigenvector_centrality", "degree_centrality",
             "dijkstra::all_pairs", "modularity(components)", "breadth_first_search", "closeness_centrality",
             "betweenness_centrality", "node_connected_component", "dijkstra::all_pairs(target)",
-            "dijkstra::multi_source(all paths)", "dijkstra::multi_source(first_only, distances)"]
+            "dijkstra::multi_source(all paths)", "dijkstra::multi_source(first_only, distances)",
+            "get_subgraph(every other name): node order", "louvain_communities(seed 1) of that subgraph"]
 
 FAMS = ["path", "cycle", "complete", "star", "circ2", "grid", "cliques", "rand", "hubtwin", "hubtwin_dir", "w5", "mring", "bigdir"]
 WTS = [0.1, 0.2, 0.3]
